@@ -13,7 +13,7 @@ import UF.Gen.Facts
   The index loops of `splitNextByWhitespace` are kept as index computations (`scanWhile`) followed
   by CHECKED slices, so that "never panics" is a theorem.
 -/
-namespace UF
+namespace UF.H
 open Bytes
 
 def isBlank (c : UInt8) : Bool := c == ch ' ' || c == ch '\t'
@@ -74,8 +74,25 @@ def newHostRule (ext : Ext) (dn : Bytes → Bool) (text : Bytes) (listID : Int) 
           | .error err => .error err
           | .ok names => .ok { text := text, listID := listID, hostnames := names, ip := a }
 
+/-- The comment strip of the PINNED tree (defect D11): `ruleText[0 : commentIndex-1]` also drops the
+    byte before the '#'.  Kept only as the negation witness of Props/C18. -/
+def stripHostCommentOld (text : Bytes) : Except HErr Bytes :=
+  match indexByte text (ch '#') with
+  | some i => if i > 0 then sliceE text 0 (i - 1) else .ok text
+  | none => .ok text
+
+/-- `NewHostRule` of the pinned tree (the stripped text contains no '#', so the current parser
+    applied to it does what the old one did after its strip). -/
+def newHostRuleOld (ext : Ext) (dn : Bytes → Bool) (text : Bytes) (listID : Int) : Except HErr HostRule :=
+  match stripHostCommentOld text with
+  | .error err => .error err
+  | .ok body =>
+    match newHostRule ext dn body listID with
+    | .error err => .error err
+    | .ok r => .ok { r with text := text }
+
 /-- `HostRule.Match` (the single-name fast path, then the loop). -/
-def HostRule.matches (r : HostRule) (hostname : Bytes) : Bool :=
+def hostRuleMatches (r : HostRule) (hostname : Bytes) : Bool :=
   (r.hostnames.length == 1 && r.hostnames.head? == some hostname) ||
   r.hostnames.any (fun h => h == hostname)
 
@@ -139,4 +156,4 @@ def newRuleKind (ext : Ext) (dn : Bytes → Bool) (line : Bytes) (listID : Int) 
     | .error .reject => .network
     | .error .panic => .crash
 
-end UF
+end UF.H
